@@ -7,7 +7,9 @@ CONSTANTS ND = 2
  CheckWait = TRUE
  Buffered = TRUE
  ExclTmp = TRUE
+ DirIsEmpty = FALSE
+ ArgCheck = TRUE
  Emit = FALSE
 VIEW View
-INVARIANTS P1 P2 P3 P4 P5 TypeOK
+INVARIANTS P1 P2 P3 P4 P5 P6 TypeOK
 CHECK_DEADLOCK FALSE
